@@ -101,10 +101,12 @@ Definition where_flags (flags : list bool) (order : list Z) : list nat :=
 (* _Strand.derived_row_idxs: [e.derived ...] + [False] * n_subtotals *)
 Definition derived_idxs_strand (derived : list bool) (n_subtotals : nat) (order : list Z) : list nat :=
   where_flags (derived ++ repeat false n_subtotals) order.
-(* _Slice._derived_element_idxs pads with len(valid_elements) False's (its local variable is
-   called n_subtotals but it is the number of ELEMENTS) *)
-Definition derived_idxs_slice (derived : list bool) (order : list Z) : list nat :=
-  where_flags (derived ++ repeat false (length derived)) order.
+(* _Slice._derived_element_idxs: the same, [e.derived ...] + [False] * len(dimension.subtotals)
+   (since the repair of finding C05-derived-idxs-indexerror; it used to pad with one False per
+   valid ELEMENT, which is too short for a dimension with more than twice as many subtotals as
+   elements) *)
+Definition derived_idxs_slice (derived : list bool) (n_subtotals : nat) (order : list Z) : list nat :=
+  where_flags (derived ++ repeat false n_subtotals) order.
 (* diff_*_idxs: [False] * n_valids + [s.is_difference ...] *)
 Definition diff_idxs (n_valid : nat) (is_diff : list bool) (order : list Z) : list nat :=
   where_flags (repeat false n_valid ++ is_diff) order.
@@ -172,7 +174,7 @@ Definition run_positions (derived : list bool) (is_diff : list bool) (strand : b
   : list Z :=
   r_nats (inserted_idxs order)
   ++ r_nats (if strand then derived_idxs_strand derived (length is_diff) order
-             else derived_idxs_slice derived order)
+             else derived_idxs_slice derived (length is_diff) order)
   ++ r_nats (diff_idxs (length derived) is_diff order).
 Definition run_renumber (co : list Z) (sigs : list (list Z)) : list Z :=
   r_list r_nats (map (renumber co) sigs).
